@@ -80,7 +80,7 @@ var profiles = map[string]*Profile{
 			"walk": 2, "cmpcopy": 4, "sync": 2, "fault": 5, "mine-auto": 3, "xfer-hold": 1, "submit-held": 1, "balrace": 3, "race3": 3, "flood": 2},
 		EndChecks: []string{"cmpcopy", "sync", "cmpcopy"}},
 	"C06": {Name: "crash", Steps: 26, Fee: []bool{false, true}, Windows: []int64{0},
-		W:         map[string]int{"xfer": 6, "ktx": 6, "mine": 5, "foreign": 5, "fork": 5, "walk": 3, "sync": 3, "xfer-bad": 1, "truncate": 2, "badblock": 1, "bad-truncate": 2},
+		W:         map[string]int{"xfer": 6, "ktx": 6, "mine": 5, "foreign": 5, "fork": 5, "walk": 3, "sync": 3, "xfer-bad": 1, "truncate": 2, "badblock": 1, "bad-truncate": 2, "fault": 3},
 		EndChecks: []string{"crashcheck 120"}},
 	"C12": {Name: "schedules", Steps: 30, Fee: []bool{false, true}, Windows: []int64{0},
 		W:         map[string]int{"xfer": 4, "ktx": 4, "race": 10, "race3": 5, "flood": 5, "balrace": 6, "selrace": 4, "walkrace": 4, "xfer-bad": 3, "ktx-two": 3, "ktx-old": 2, "mine": 3, "foreign": 3, "fork": 2, "walk": 2, "sync": 2},
